@@ -191,7 +191,7 @@ static bool exec_lock_photon(const std::string& prim, int ex, vt::Rng& r) {
             w->where = "done";
         };
     }
-    for (int i = 0; i < nth; i++) vtp::spawn_on(ws[i], g_vc.vc[r.below(nvc)]);
+    { vtp::GateGuard gg; for (int i = 0; i < nth; i++) vtp::spawn_on(ws[i], g_vc.vc[r.below(nvc)]); }
     Interrupter in; in.ws = &ws; in.seed = r.next(); in.budget = with_intr ? 1 + (int)r.below(4) : 0;
     bool os_intr = r.coin(40);
     vtp::Worker iw; iw.id = 99;
@@ -199,7 +199,7 @@ static bool exec_lock_photon(const std::string& prim, int ex, vt::Rng& r) {
         if (os_intr) in.os = std::thread([&in] { in.loop(false); });
         else { iw.body = [&in] { in.loop(true); }; vtp::spawn_on(&iw, g_vc.vc[r.below(nvc)]); }
     }
-    bool ok = vtp::wait_done(ws, 3 * 1000 * 1000, prim.c_str());
+    bool ok = vtp::wait_done(ws, 10 * 1000 * 1000, prim.c_str());
     in.stop = true;
     if (in.budget || in.os.joinable() || iw.th) {
         if (os_intr) { if (in.os.joinable()) in.os.join(); }
@@ -260,6 +260,386 @@ static bool exec_lock_os(const std::string& prim, int ex, vt::Rng& r) {
     return true;
 }
 
+
+// ------------------------------------------------------------------------------------------------ settle detection
+// An execution is "settled" when every worker is done or has been observed SLEEPING inside a blocking call at two
+// inspections 10 ms apart without having advanced its operation counter.  Only then are blocked threads reported.
+struct Prog { std::atomic<int> opno{0}; std::atomic<int> blocked_in{0}; int64_t arg = 0; int mode = 0; };
+static bool settled(std::vector<vtp::Worker*>& ws, std::vector<Prog>& pg, std::vector<int>& blocked) {
+    auto snap = [&](std::vector<int>& ops) {
+        blocked.clear(); ops.clear();
+        for (size_t i = 0; i < ws.size(); i++) {
+            ops.push_back(pg[i].opno.load());
+            if (ws[i]->done.load()) continue;
+            if (!pg[i].blocked_in.load() || thread_stat(ws[i]->th) != states::SLEEPING) return false;
+            blocked.push_back((int)i);
+        }
+        return true;
+    };
+    std::vector<int> o1, o2, b1;
+    if (!snap(o1)) return false;
+    b1 = blocked;
+    thread_usleep(10 * 1000);
+    if (!snap(o2)) return false;
+    return o1 == o2 && b1 == blocked;
+}
+// waits until the execution settles (or everything is done); returns false on a hang (threads neither done nor asleep)
+static bool wait_settle(std::vector<vtp::Worker*>& ws, std::vector<Prog>& pg, std::vector<int>& blocked, const char* what) {
+    for (int spins = 0; spins < 20000; spins++) {
+        bool all = true;
+        for (auto w : ws) if (!w->done.load()) { all = false; break; }
+        if (all) { blocked.clear(); return true; }
+        if (spins > 4 && settled(ws, pg, blocked)) return true;
+        thread_usleep(500);
+    }
+    return vtp::wait_done(ws, 0, what);
+}
+
+// ------------------------------------------------------------------------------------------------ semaphore (C02)
+static bool exec_sem(const std::string& prim, int ex, vt::Rng& r) {
+    bool ooo = prim == "semooo";
+    uint64_t init = r.below(3);
+    semaphore sem(init, !ooo);
+    int nth = 2 + (int)r.below(g_threads - 1);
+    int nvc = 1 + (int)r.below(g_vcpus);
+    bool with_intr = r.coin(40);
+    bool os_signaller = r.coin(50);
+    vt::Ev("Reset").s("prim", prim).i("ex", ex).i("n", nth).i("vcpus", nvc).i("init", (int64_t)init).b("ooo", ooo);
+    std::vector<std::unique_ptr<vtp::Worker>> own; std::vector<vtp::Worker*> ws; std::vector<Prog> pg(nth);
+    for (int i = 0; i < nth; i++) {
+        own.emplace_back(new vtp::Worker()); auto w = own.back().get(); w->id = i + 1; ws.push_back(w);
+        uint64_t wseed = r.next(); int nops = 1 + (int)r.below(g_ops); Prog* P = &pg[i];
+        bool interruptible = r.coin(50);
+        w->body = [w, wseed, nops, &sem, P, interruptible] {
+            vt::Rng rr(wseed);
+            for (int k = 0; k < nops; k++) {
+                pause_a_bit(rr);
+                P->opno++;
+                if (rr.below(10) < 6) {
+                    int64_t us; int kind = (int)rr.below(3); Timeout t = mk_timeout(kind, rr, &us);
+                    int64_t n = 1 + (int64_t)rr.below(2);
+                    w->where = "wait"; P->arg = n;
+                    vt::Ev("Inv").i("t", w->id).s("op", interruptible ? "waiti" : "wait").i("n", n).i("to", kind);
+                    P->blocked_in = 1; errno = 0;
+                    int ret = interruptible ? sem.wait_interruptible(n, t) : sem.wait(n, t);
+                    int en = ret < 0 ? errno : 0;
+                    P->blocked_in = 0;
+                    vt::Ev("Resp").i("t", w->id).s("op", interruptible ? "waiti" : "wait").i("r", ret).i("en", en);
+                } else {
+                    int64_t n = 1 + (int64_t)rr.below(2);
+                    w->where = "signal";
+                    vt::Ev("Inv").i("t", w->id).s("op", "signal").i("n", n);
+                    sem.signal(n);
+                    vt::Ev("Resp").i("t", w->id).s("op", "signal").i("r", 0).i("en", 0);
+                }
+            }
+            w->where = "done";
+        };
+    }
+    { vtp::GateGuard gg; for (int i = 0; i < nth; i++) vtp::spawn_on(ws[i], g_vc.vc[r.below(nvc)]); }
+    // an external signaller: plain OS thread (id 90)
+    std::thread oss; std::atomic<bool> oss_done{true};
+    if (os_signaller) {
+        oss_done = false; uint64_t sseed = r.next(); int ns = 1 + (int)r.below(3);
+        oss = std::thread([&sem, sseed, ns, &oss_done] {
+            vt::Rng rr(sseed);
+            for (int k = 0; k < ns; k++) {
+                for (volatile int j = 0; j < (int)rr.below(40000); j++) {}
+                int64_t n = 1 + (int64_t)rr.below(2);
+                vt::Ev("Inv").i("t", 90).s("op", "signal").i("n", n);
+                sem.signal(n);
+                vt::Ev("Resp").i("t", 90).s("op", "signal").i("r", 0).i("en", 0);
+            }
+            oss_done = true;
+        });
+    }
+    Interrupter in; in.ws = &ws; in.seed = r.next(); in.budget = with_intr ? 1 + (int)r.below(3) : 0;
+    vtp::Worker iw; iw.id = 99;
+    if (in.budget) { iw.body = [&in] { in.loop(true); }; vtp::spawn_on(&iw, g_vc.vc[r.below(nvc)]); }
+    std::vector<int> blocked;
+    bool ok = true;
+    while (true) {
+        ok = wait_settle(ws, pg, blocked, prim.c_str());
+        if (!ok) break;
+        if (!oss_done.load() || (in.budget && !in.done.load() && !in.stop.load())) { in.stop = true; thread_usleep(300); if (blocked.empty() && oss_done.load()) break; continue; }
+        break;
+    }
+    in.stop = true;
+    if (oss.joinable()) oss.join();
+    if (iw.th) { while (!iw.done.load()) thread_usleep(100); thread_join(iw.jh); }
+    if (!ok) return false;
+    // re-inspect after the signaller / interrupter have stopped
+    ok = wait_settle(ws, pg, blocked, prim.c_str());
+    if (!ok) return false;
+    int guard = 0;
+    while (!blocked.empty() && guard++ < 50) {
+        vt::Arr a; int64_t need = 0;
+        for (int i : blocked) { a.raw("[" + std::to_string(ws[i]->id) + "," + std::to_string(pg[i].arg) + "]"); need += pg[i].arg; }
+        vt::Ev("Settle").raw("blocked", a.str()).i("count", (int64_t)sem.count());
+        // release them so the execution can go on
+        vt::Ev("Inv").i("t", 91).s("op", "signal").i("n", need);
+        sem.signal(need);
+        vt::Ev("Resp").i("t", 91).s("op", "signal").i("r", 0).i("en", 0);
+        if (!wait_settle(ws, pg, blocked, prim.c_str())) return false;
+    }
+    if (!vtp::wait_done(ws, 10 * 1000 * 1000, prim.c_str())) return false;
+    vtp::join_all(ws);
+    vt::Ev("Quiesce").i("count", (int64_t)sem.count());
+    return true;
+}
+
+// destroy-after-wait: the waiter owns the semaphore's storage and destroys + poisons it as soon as wait() returns
+static bool exec_semdestroy(const std::string& prim, int ex, vt::Rng& r) {
+    struct Box { alignas(64) unsigned char mem[sizeof(semaphore)]; };
+    int rounds = 3 + (int)r.below(5);
+    int nvc = g_vcpus;
+    vt::Ev("Reset").s("prim", prim).i("ex", ex).i("n", 2).i("vcpus", nvc).i("init", 0).b("ooo", false);
+    for (int k = 0; k < rounds; k++) {
+        Box* box = new Box();
+        vt::Ev("NewSem").i("k", k);
+        semaphore* sem = new (box->mem) semaphore(0);
+        std::atomic<int> phase{0};
+        vtp::Worker w; w.id = 1;
+        w.body = [&] {
+            vt::Ev("Inv").i("t", 1).s("op", "wait").i("n", 1).i("to", TO_INF);
+            int ret = sem->wait(1);
+            vt::Ev("Resp").i("t", 1).s("op", "wait").i("r", ret).i("en", 0);
+            sem->~semaphore();
+            memset(box->mem, 0xA5, sizeof box->mem);
+            vt::Ev("Destroyed").i("t", 1);
+            phase = 1;
+        };
+        vtp::spawn_on(&w, g_vc.vc[r.below(nvc)]);
+        bool by_os = r.coin(50);
+        uint64_t d = r.below(300);
+        auto sig = [&] {
+            vt::Ev("Inv").i("t", 90).s("op", "signal").i("n", 1);
+            sem->signal(1);
+            vt::Ev("Resp").i("t", 90).s("op", "signal").i("r", 0).i("en", 0);
+        };
+        thread_usleep(d);
+        if (by_os) { std::thread t(sig); t.join(); }
+        else { vtp::Worker s2; s2.id = 2; s2.body = sig; vtp::spawn_on(&s2, g_vc.vc[r.below(nvc)]);
+               while (!s2.done.load()) thread_usleep(50); thread_join(s2.jh); }
+        std::vector<vtp::Worker*> ws{&w};
+        if (!vtp::wait_done(ws, 10 * 1000 * 1000, "semdestroy")) return false;
+        vtp::join_all(ws);
+        bool intact = true;
+        for (size_t i = 0; i < sizeof box->mem; i++) if (box->mem[i] != 0xA5) intact = false;
+        vt::Ev("PoisonCheck").b("intact", intact);
+        delete box;
+    }
+    vt::Ev("Quiesce").i("count", 0);
+    return true;
+}
+
+// ------------------------------------------------------------------------------------------------ condition variable (C03)
+static bool exec_cv(const std::string& prim, int ex, vt::Rng& r) {
+    bool spin = prim == "cvspin";
+    mutex mtx; spinlock spl; condition_variable cv;
+    int nth = 2 + (int)r.below(g_threads - 1);
+    int nvc = 1 + (int)r.below(g_vcpus);
+    vt::Ev("Reset").s("prim", prim).i("ex", ex).i("n", nth).i("vcpus", nvc).b("spin", spin);
+    std::vector<std::unique_ptr<vtp::Worker>> own; std::vector<vtp::Worker*> ws; std::vector<Prog> pg(nth);
+    auto lock = [&] { if (spin) spl.lock(); else mtx.lock(); };
+    auto unlock = [&] { if (spin) spl.unlock(); else mtx.unlock(); };
+    for (int i = 0; i < nth; i++) {
+        own.emplace_back(new vtp::Worker()); auto w = own.back().get(); w->id = i + 1; ws.push_back(w);
+        uint64_t wseed = r.next(); int nops = 1 + (int)r.below(g_ops); Prog* P = &pg[i];
+        bool waiter = (i == 0) || r.coin(50);
+        w->body = [w, wseed, nops, P, waiter, spin, &cv, &mtx, &spl, lock, unlock] {
+            vt::Rng rr(wseed);
+            for (int k = 0; k < nops; k++) {
+                if (!spin) pause_a_bit(rr); else if (rr.coin(50)) thread_yield();
+                P->opno++;
+                if (waiter && rr.below(10) < 7) {
+                    lock();
+                    vt::Ev("Acq").i("t", w->id);
+                    int64_t us; int kind = (int)rr.below(10) < 6 ? TO_INF : TO_SHORT;
+                    uint64_t t0 = photon::__update_now();
+                    Timeout t = mk_timeout(kind, rr, &us);
+                    w->where = "cvwait";
+                    vt::Ev("Inv").i("t", w->id).s("op", "cvwait").i("to", kind).i("us", us);
+                    P->blocked_in = 1; errno = 0;
+                    int ret = spin ? cv.wait(spl, t) : cv.wait(mtx, t);
+                    int en = ret < 0 ? errno : 0;
+                    P->blocked_in = 0;
+                    uint64_t t1 = photon::__update_now();
+                    vt::Ev("Resp").i("t", w->id).s("op", "cvwait").i("r", ret).i("en", en).i("dt", (int64_t)(t1 - t0));
+                    vt::Ev("Rel").i("t", w->id);
+                    unlock();
+                } else {
+                    bool with_lock = rr.coin(60);
+                    bool all = rr.coin(35);
+                    if (with_lock) { lock(); vt::Ev("Acq").i("t", w->id); }
+                    w->where = "notify";
+                    vt::Ev("Inv").i("t", w->id).s("op", all ? "notify_all" : "notify_one");
+                    int64_t res;
+                    if (all) res = cv.notify_all();
+                    else { thread* th = cv.notify_one(); res = th ? vtp::reg().get(th) : 0; }
+                    vt::Ev("Resp").i("t", w->id).s("op", all ? "notify_all" : "notify_one").i("r", res).i("en", 0);
+                    if (with_lock) { vt::Ev("Rel").i("t", w->id); unlock(); }
+                }
+            }
+            w->where = "done";
+        };
+    }
+    { vtp::GateGuard gg; for (int i = 0; i < nth; i++) vtp::spawn_on(ws[i], g_vc.vc[r.below(nvc)]); }
+    std::vector<int> blocked;
+    if (!wait_settle(ws, pg, blocked, prim.c_str())) return false;
+    int guard = 0;
+    while (!blocked.empty() && guard++ < 20) {
+        vt::Arr a; for (int i : blocked) a.i(ws[i]->id);
+        vt::Ev("Settle").raw("blocked", a.str());
+        vt::Ev("Inv").i("t", 91).s("op", "notify_all");
+        int64_t res = cv.notify_all();
+        vt::Ev("Resp").i("t", 91).s("op", "notify_all").i("r", res).i("en", 0);
+        if (!wait_settle(ws, pg, blocked, prim.c_str())) return false;
+    }
+    if (!vtp::wait_done(ws, 10 * 1000 * 1000, prim.c_str())) return false;
+    vtp::join_all(ws);
+    vt::Ev("Quiesce").i("locked", spin ? (int)spl.locked() : (int)mtx.locked());
+    return true;
+}
+
+// ------------------------------------------------------------------------------------------------ rwlock / qrwlock (C06)
+static bool exec_rw(const std::string& prim, int ex, vt::Rng& r) {
+    bool q = prim == "qrw";
+    rwlock rw; qrwlock qrw;
+    int nth = 2 + (int)r.below(g_threads - 1);
+    int nvc = 1 + (int)r.below(g_vcpus);
+    bool with_intr = r.coin(40);
+    vt::Ev("Reset").s("prim", prim).i("ex", ex).i("n", nth).i("vcpus", nvc);
+    std::vector<std::unique_ptr<vtp::Worker>> own; std::vector<vtp::Worker*> ws; std::vector<Prog> pg(nth);
+    for (int i = 0; i < nth; i++) {
+        own.emplace_back(new vtp::Worker()); auto w = own.back().get(); w->id = i + 1; ws.push_back(w);
+        uint64_t wseed = r.next(); int nops = 1 + (int)r.below(g_ops); Prog* P = &pg[i];
+        w->body = [w, wseed, nops, P, q, &rw, &qrw] {
+            vt::Rng rr(wseed);
+            int held = 0;  // 0 none, 1 read, 2 write
+            auto do_unlock = [&] {
+                vt::Ev("CsEnter").i("t", w->id).i("mode", held);
+                pause_a_bit(rr);
+                vt::Ev("CsExit").i("t", w->id);
+                vt::Ev("Inv").i("t", w->id).s("op", "unlock");
+                int ret = q ? qrw.unlock() : rw.unlock();
+                vt::Ev("Resp").i("t", w->id).s("op", "unlock").i("r", ret).i("en", 0);
+                held = 0;
+            };
+            for (int k = 0; k < nops; k++) {
+                pause_a_bit(rr);
+                P->opno++;
+                if (held) { w->where = "unlock"; do_unlock(); continue; }
+                int mode = rr.coin(60) ? 1 : 2;
+                if (q && rr.below(10) < 3) {
+                    vt::Ev("Inv").i("t", w->id).s("op", "try_lock").i("mode", mode);
+                    int ret = qrw.try_lock(mode == 1 ? RLOCK : WLOCK);
+                    vt::Ev("Resp").i("t", w->id).s("op", "try_lock").i("r", ret).i("en", 0);
+                    if (ret == 0) held = mode;
+                    continue;
+                }
+                int64_t us; int kind = (int)rr.below(3); Timeout t = mk_timeout(kind, rr, &us);
+                w->where = "rwlock"; P->mode = mode;
+                vt::Ev("Inv").i("t", w->id).s("op", "lock").i("mode", mode).i("to", kind);
+                P->blocked_in = 1; errno = 0;
+                int ret = q ? qrw.lock(mode == 1 ? RLOCK : WLOCK, t) : rw.lock(mode == 1 ? RLOCK : WLOCK, t);
+                int en = ret < 0 ? errno : 0;
+                P->blocked_in = 0;
+                vt::Ev("Resp").i("t", w->id).s("op", "lock").i("r", ret).i("en", en);
+                if (ret == 0) held = mode;
+            }
+            if (held) do_unlock();
+            w->where = "done";
+        };
+    }
+    { vtp::GateGuard gg; for (int i = 0; i < nth; i++) vtp::spawn_on(ws[i], g_vc.vc[r.below(nvc)]); }
+    Interrupter in; in.ws = &ws; in.seed = r.next(); in.budget = with_intr ? 1 + (int)r.below(3) : 0;
+    vtp::Worker iw; iw.id = 99;
+    if (in.budget) { iw.body = [&in] { in.loop(true); }; vtp::spawn_on(&iw, g_vc.vc[r.below(nvc)]); }
+    bool ok = vtp::wait_done(ws, 10 * 1000 * 1000, prim.c_str());
+    in.stop = true;
+    if (iw.th) { while (!iw.done.load()) thread_usleep(100); thread_join(iw.jh); }
+    if (!ok) return false;
+    vtp::join_all(ws);
+    vt::Ev("Quiesce").i("locked", 0);
+    return true;
+}
+
+// ------------------------------------------------------------------------------------------------ sleep / interrupt (C04)
+static bool exec_sleep(const std::string& prim, int ex, vt::Rng& r) {
+    int nth = 2 + (int)r.below(g_threads + 3);
+    int nvc = 1 + (int)r.below(g_vcpus);
+    vt::Ev("Reset").s("prim", prim).i("ex", ex).i("n", nth).i("vcpus", nvc);
+    std::vector<std::unique_ptr<vtp::Worker>> own; std::vector<vtp::Worker*> ws; std::vector<Prog> pg(nth);
+    std::atomic<int> next_errno{1000};
+    std::atomic<int> running{nth};
+    for (int i = 0; i < nth; i++) {
+        own.emplace_back(new vtp::Worker()); auto w = own.back().get(); w->id = i + 1; ws.push_back(w);
+        uint64_t wseed = r.next(); int nops = 1 + (int)r.below(g_ops); Prog* P = &pg[i];
+        int vidx = (int)r.below(nvc);
+        P->mode = vidx;
+        w->body = [w, wseed, nops, P, vidx, &ws, &pg, &next_errno, &running] {
+            vt::Rng rr(wseed);
+            for (int k = 0; k < nops; k++) {
+                P->opno++;
+                int c = (int)rr.below(10);
+                if (c < 6) {
+                    // sleep with a deadline from a small set so that equal deadlines occur
+                    static const int64_t DUR[] = {0, 100, 100, 300, 300, 700, 1500, 3000};
+                    int64_t us = DUR[rr.below(8)];
+                    bool inf = rr.below(12) == 0;
+                    uint64_t t0 = photon::__update_now();
+                    Timeout t = inf ? Timeout() : Timeout((uint64_t)us);
+                    w->where = "usleep";
+                    vt::Ev("Inv").i("t", w->id).s("op", "usleep").i("us", inf ? -1 : us).i("v", vidx)
+                        .i("exp", inf ? -1 : (us == 0 ? -2 : (int64_t)(t.expiration() - g_t0)));
+                    P->blocked_in = 1; errno = 0;
+                    int ret = thread_usleep(t);
+                    int en = ret < 0 ? errno : 0;
+                    P->blocked_in = 0;
+                    uint64_t t1 = photon::__update_now();
+                    vt::Ev("Resp").i("t", w->id).s("op", "usleep").i("r", ret).i("en", en).i("dt", (int64_t)(t1 - t0));
+                } else if (c < 8) {
+                    // interrupt another worker with a unique reason
+                    int j = (int)rr.below(ws.size());
+                    if (ws[j] == w || ws[j]->done.load()) continue;
+                    int e = next_errno++;
+                    vt::Ev("Inv").i("t", w->id).s("op", "interrupt").i("target", ws[j]->id).i("err", e).i("st", (int)thread_stat(ws[j]->th));
+                    thread_interrupt(ws[j]->th, e);
+                    vt::Ev("Resp").i("t", w->id).s("op", "interrupt").i("r", 0).i("en", 0);
+                } else {
+                    w->where = "yield";
+                    vt::Ev("Inv").i("t", w->id).s("op", "yield");
+                    int ret = thread_yield();
+                    vt::Ev("Resp").i("t", w->id).s("op", "yield").i("r", ret).i("en", 0);
+                }
+            }
+            // stay alive (so that late interrupts have a valid target) until everybody has finished its program
+            running--;
+            w->where = "linger";
+        };
+    }
+    { vtp::GateGuard gg; for (int i = 0; i < nth; i++) vtp::spawn_on(ws[i], g_vc.vc[pg[i].mode]); }
+    // release threads sleeping forever: an infinite sleep can only end by an interrupt
+    std::vector<int> blocked;
+    int guard = 0;
+    while (guard++ < 50) {
+        if (!wait_settle(ws, pg, blocked, prim.c_str())) return false;
+        if (blocked.empty()) break;
+        for (int i : blocked) {
+            int e = next_errno++;
+            vt::Ev("Inv").i("t", 91).s("op", "interrupt").i("target", ws[i]->id).i("err", e).i("st", (int)thread_stat(ws[i]->th));
+            thread_interrupt(ws[i]->th, e);
+            vt::Ev("Resp").i("t", 91).s("op", "interrupt").i("r", 0).i("en", 0);
+        }
+    }
+    if (!vtp::wait_done(ws, 10 * 1000 * 1000, prim.c_str())) return false;
+    vtp::join_all(ws);
+    vt::Arr a; for (int v = 0; v < nvc; v++) a.i((int64_t)get_info(INFO_SLEEPING_THREAD_NUM, g_vc.vc[v]) - (v > 0 ? 1 : 0));   // minus the parked main thread of an extra vCPU
+    vt::Ev("Quiesce").raw("sleeping", a.str());
+    return true;
+}
+
 int main(int argc, char** argv) {
     std::string prim = vt::arg(argc, argv, "--prim", "mutex");
     g_execs = atoi(vt::arg(argc, argv, "--execs", "50"));
@@ -273,12 +653,20 @@ int main(int argc, char** argv) {
     photon::init(photon::INIT_EVENT_EPOLL, photon::INIT_IO_NONE);
     g_t0 = photon::__update_now();
     g_vc.start(g_vcpus);
+    vtp::Watchdog wd; wd.start(20, prim.c_str());
     vt::Rng r(g_seed * 1000003 + std::hash<std::string>()(prim) % 1000);
     int rc = 0;
     for (int ex = 0; ex < g_execs; ex++) {
-        bool ok = os_clients ? exec_lock_os(prim, ex, r) : exec_lock_photon(prim, ex, r);
+        bool ok;
+        if (prim == "sem" || prim == "semooo") ok = exec_sem(prim, ex, r);
+        else if (prim == "semdestroy") ok = exec_semdestroy(prim, ex, r);
+        else if (prim == "cv" || prim == "cvspin") ok = exec_cv(prim, ex, r);
+        else if (prim == "rw" || prim == "qrw") ok = exec_rw(prim, ex, r);
+        else if (prim == "sleep") ok = exec_sleep(prim, ex, r);
+        else ok = os_clients ? exec_lock_os(prim, ex, r) : exec_lock_photon(prim, ex, r);
         if (!ok) { rc = 4; break; }
     }
+    wd.end();
     vt::close();
     if (rc) _exit(rc);      // a hung photon thread cannot be cleaned up
     g_vc.stop();
